@@ -574,17 +574,52 @@ func (tb *table) emit(b *strings.Builder, typ string) {
 
 const chunk = 250
 
-func emitRows(b *strings.Builder, name, typ string, rows []string) int {
-	var parts []string
-	for i := 0; i*chunk < len(rows); i++ {
-		hi := (i + 1) * chunk
-		if hi > len(rows) {
-			hi = len(rows)
-		}
-		fmt.Fprintf(b, "def %s_%d : List %s := [\n  %s]\n\n", name, i, typ, strings.Join(rows[i*chunk:hi], ",\n  "))
-		parts = append(parts, fmt.Sprintf("%s_%d", name, i))
+// rows grouped by a key (kernel family base name / dispatcher method), first-occurrence order
+type groups struct {
+	order   []string
+	heads   map[string]string
+	members map[string][]string
+	n       int
+}
+
+func (g *groups) add(key, head, member string) {
+	if g.heads == nil {
+		g.heads, g.members = map[string]string{}, map[string][]string{}
 	}
-	fmt.Fprintf(b, "def %sChunks : List (List %s) := [%s]\n\n", name, typ, strings.Join(parts, ", "))
+	if _, ok := g.heads[key]; !ok {
+		g.order = append(g.order, key)
+		g.heads[key] = head
+	}
+	if member != "" {
+		g.members[key] = append(g.members[key], member)
+		g.n++
+	}
+}
+
+// one def per group, then chunk lists holding at most `chunk` members each
+func (g *groups) emit(b *strings.Builder, name, typ string) int {
+	var parts, cur []string
+	size := 0
+	flush := func() {
+		if len(cur) > 0 {
+			fmt.Fprintf(b, "def %ss_%d : List %s := [%s]\n", name, len(parts), typ, strings.Join(cur, ", "))
+			parts = append(parts, fmt.Sprintf("%ss_%d", name, len(parts)))
+			cur, size = nil, 0
+		}
+	}
+	for i, k := range g.order {
+		fmt.Fprintf(b, "def %s_%d : %s := ⟨%s, [%s]⟩\n", name, i, typ, g.heads[k], strings.Join(g.members[k], ", "))
+	}
+	b.WriteString("\n")
+	for i, k := range g.order {
+		if size > 0 && size+len(g.members[k]) > chunk {
+			flush()
+		}
+		cur = append(cur, fmt.Sprintf("%s_%d", name, i))
+		size += len(g.members[k])
+	}
+	flush()
+	fmt.Fprintf(b, "\ndef %ssChunks : List (List %s) := [%s]\n\n", name, typ, strings.Join(parts, ", "))
 	return len(parts)
 }
 
@@ -638,7 +673,7 @@ func main() {
 
 	// ---- kernels
 	kb := &table{prefix: "kbody"}
-	var krows []string
+	kf := &groups{}
 	for _, name := range kernelFiles {
 		for _, d := range parse(fset, dir, name).Decls {
 			fd, ok := d.(*ast.FuncDecl)
@@ -653,20 +688,20 @@ func main() {
 			if ty != nil {
 				tag = ty.suffix
 			}
-			krows = append(krows, fmt.Sprintf("⟨%s, %s, %d⟩", q(base), q(tag), kb.add(body)))
+			kf.add(base, q(base), fmt.Sprintf("(%s, kbody_%d)", q(tag), kb.add(body)))
 		}
 	}
 	var b strings.Builder
 	fmt.Fprintf(&b, header, strings.Join(kernelFiles, ", "))
 	kb.emit(&b, "Fn")
-	kchunks := emitRows(&b, "krows", "KRow", krows)
+	kchunks := kf.emit(&b, "kfam", "KFam")
 	b.WriteString("end TM.Generated\n")
 	writeIfChanged(filepath.Join(*out, "Kernels.lean"), b.String())
 
 	// ---- dispatchers
 	fb := &table{prefix: "dframe"} // method frame: prelude, switch with its default arm only, epilogue
 	ab := &table{prefix: "darm"}   // abstracted arm bodies
-	var mrows, arows []string
+	df := &groups{}
 	for _, name := range dispatchFiles {
 		for _, d := range parse(fset, dir, name).Decls {
 			fd, ok := d.(*ast.FuncDecl)
@@ -681,7 +716,7 @@ func main() {
 				if fd.Body != nil {
 					body = t.block(fd.Body)
 				}
-				mrows = append(mrows, fmt.Sprintf("⟨%s, %d⟩", q(fd.Name.Name), fb.add("⟨"+ps+", "+rs+", "+body+"⟩")))
+				df.add(fd.Name.Name, fmt.Sprintf("%s, dframe_%d", q(fd.Name.Name), fb.add("⟨"+ps+", "+rs+", "+body+"⟩")), "")
 				opaque += t.nOpaque
 				continue
 			}
@@ -691,7 +726,7 @@ func main() {
 				frame = append(frame, t.stmt(s)...)
 			}
 			sw := fd.Body.List[k].(*ast.SwitchStmt)
-			var dflt []string
+			var dflt, arms []string
 			for _, c := range sw.Body.List {
 				cc := c.(*ast.CaseClause)
 				if cc.List == nil {
@@ -711,29 +746,31 @@ func main() {
 				a.push()
 				arm := a.stmts(cc.Body)
 				opaque += a.nOpaque
-				arows = append(arows, fmt.Sprintf("⟨%s, %s, %d⟩", q(fd.Name.Name), q(caseName), ab.add(arm)))
+				arms = append(arms, fmt.Sprintf("(%s, darm_%d)", q(caseName), ab.add(arm)))
 			}
 			frame = append(frame, "(switch skip "+t.expr(sw.Tag)+" "+slist(dflt)+")")
 			for _, s := range fd.Body.List[k+1:] {
 				frame = append(frame, t.stmt(s)...)
 			}
 			opaque += t.nOpaque
-			mrows = append(mrows, fmt.Sprintf("⟨%s, %d⟩", q(fd.Name.Name), fb.add("⟨"+ps+", "+rs+", "+slist(frame)+"⟩")))
+			df.add(fd.Name.Name, fmt.Sprintf("%s, dframe_%d", q(fd.Name.Name), fb.add("⟨"+ps+", "+rs+", "+slist(frame)+"⟩")), "")
+			for _, a := range arms {
+				df.add(fd.Name.Name, "", a)
+			}
 		}
 	}
 	b.Reset()
 	fmt.Fprintf(&b, header, strings.Join(dispatchFiles, ", "))
 	fb.emit(&b, "Fn")
 	ab.emit(&b, "Stmts")
-	emitRows(&b, "mrows", "MRow", mrows)
-	achunks := emitRows(&b, "arows", "ARow", arows)
+	achunks := df.emit(&b, "dmeth", "DMethod")
 	b.WriteString("end TM.Generated\n")
 	writeIfChanged(filepath.Join(*out, "Dispatch.lean"), b.String())
 
 	summary := fmt.Sprintf("{\n  \"kernel_functions\": %d,\n  \"distinct_kernel_bodies\": %d,\n  \"kernel_chunks\": %d,\n"+
 		"  \"dispatch_methods\": %d,\n  \"distinct_method_frames\": %d,\n  \"dispatch_arms\": %d,\n  \"distinct_arm_bodies\": %d,\n"+
 		"  \"arm_chunks\": %d,\n  \"opaque_nodes\": %d\n}\n",
-		len(krows), len(kb.defs), kchunks, len(mrows), len(fb.defs), len(arows), len(ab.defs), achunks, opaque)
+		kf.n, len(kb.defs), kchunks, len(df.order), len(fb.defs), df.n, len(ab.defs), achunks, opaque)
 	writeIfChanged(filepath.Join(*out, "summary.json"), summary)
 	fmt.Print(summary)
 }
